@@ -690,4 +690,171 @@ mod n {
             },
         );
     }
+
+    // ---- C16: purge ---------------------------------------------------------------------------------------
+    fn sched(id: u128, values: &[(u128, u32)]) -> Schedule {
+        Schedule { id: uid(id), name: format!("Y{:x}", id), values: values.iter().map(|(w, n)| (uid(*w), *n)).collect() }
+    }
+    fn schedw(id: u128, values: &[(u128, u32)]) -> ScheduleWeek {
+        ScheduleWeek { id: uid(id), name: format!("K{:x}", id), values: values.iter().map(|(d, n)| (uid(*d), *n)).collect() }
+    }
+    fn schedd(id: u128, v: f32) -> ScheduleDay {
+        ScheduleDay { id: uid(id), name: format!("D{:x}", id), values: vec![v; 24] }
+    }
+
+    fn ids<T>(v: &[T], f: impl Fn(&T) -> Uuid) -> Vec<Uuid> {
+        v.iter().map(f).collect()
+    }
+
+    /// The statement of C16 as an independent oracle: what must remain, in order.
+    struct Remain {
+        spaces: Vec<Uuid>,
+        tbs: Vec<Uuid>,
+        wallcons: Vec<Uuid>,
+        wincons: Vec<Uuid>,
+        materials: Vec<Uuid>,
+        glasses: Vec<Uuid>,
+        frames: Vec<Uuid>,
+        loads: Vec<Uuid>,
+        thermostats: Vec<Uuid>,
+        year: Vec<Uuid>,
+        week: Vec<Uuid>,
+        day: Vec<Uuid>,
+    }
+
+    fn purge_oracle(m: &Model) -> Remain {
+        let keep = |all: Vec<Uuid>, used: &Vec<Uuid>| -> Vec<Uuid> { all.into_iter().filter(|x| used.contains(x)).collect() };
+        let used_spaces: Vec<Uuid> = m.walls.iter().flat_map(|w| std::iter::once(w.space).chain(w.next_to)).collect();
+        let spaces = keep(ids(&m.spaces, |x| x.id), &used_spaces);
+        // zero length: |l| below float resolution (lengths in (0, 1e-6) are not enumerated: either reading is acceptable there)
+        let tbs: Vec<Uuid> = m.thermal_bridges.iter().filter(|t| t.l.abs() > 1.0e-6).map(|t| t.id).collect();
+        let wallcons = keep(ids(&m.cons.wallcons, |x| x.id), &m.walls.iter().map(|w| w.cons).collect());
+        let wincons = keep(ids(&m.cons.wincons, |x| x.id), &m.windows.iter().map(|w| w.cons).collect());
+        let used_mats: Vec<Uuid> = m.cons.wallcons.iter().filter(|c| wallcons.contains(&c.id)).flat_map(|c| c.layers.iter().map(|l| l.material)).collect();
+        let materials = keep(ids(&m.cons.materials, |x| x.id), &used_mats);
+        let glasses = keep(ids(&m.cons.glasses, |x| x.id), &m.cons.wincons.iter().filter(|c| wincons.contains(&c.id)).map(|c| c.glass).collect());
+        let frames = keep(ids(&m.cons.frames, |x| x.id), &m.cons.wincons.iter().filter(|c| wincons.contains(&c.id)).map(|c| c.frame).collect());
+        let rem_spaces: Vec<&Space> = m.spaces.iter().filter(|x| spaces.contains(&x.id)).collect();
+        let loads = keep(ids(&m.loads, |x| x.id), &rem_spaces.iter().filter_map(|x| x.loads).collect());
+        let thermostats = keep(ids(&m.thermostats, |x| x.id), &rem_spaces.iter().filter_map(|x| x.thermostat).collect());
+        let mut used_year: Vec<Uuid> = m.loads.iter().filter(|l| loads.contains(&l.id)).flat_map(|l| [l.people_schedule, l.equipment_schedule, l.lighting_schedule]).flatten().collect();
+        used_year.extend(m.thermostats.iter().filter(|t| thermostats.contains(&t.id)).flat_map(|t| [t.temp_max, t.temp_min]).flatten());
+        let year = keep(ids(&m.schedules.year, |x| x.id), &used_year);
+        let week = keep(ids(&m.schedules.week, |x| x.id), &m.schedules.year.iter().filter(|y| year.contains(&y.id)).flat_map(|y| y.values.iter().map(|v| v.0)).collect());
+        let day = keep(ids(&m.schedules.day, |x| x.id), &m.schedules.week.iter().filter(|w| week.contains(&w.id)).flat_map(|w| w.values.iter().map(|v| v.0)).collect());
+        Remain { spaces, tbs, wallcons, wincons, materials, glasses, frames, loads, thermostats, year, week, day }
+    }
+
+    fn nan_eq(a: f32, b: f32) -> bool {
+        a == b || (a.is_nan() && b.is_nan())
+    }
+
+    #[test]
+    fn n_c16_purge() {
+        drive(
+            "C16.purge",
+            "purge_unused(&mut Model): 3 spaces, 2 walls (own space {s0,s1}, adjacent {none,s1,s2}, construction {c0,c1}), 1 window (construction {x0,x1}; x1 glass {g0,g1}), 4 bridges (lengths {0,2} / -1 / 0.001 / -0.0), space loads {none,l0,l1} x thermostat {none,t0}, load schedules over 3 yearly, thermostat schedule {none,y1,y2}, yearly->weekly->daily chains with sharing",
+            |c| {
+                let mut m = empty_model();
+                for i in 0..3u128 {
+                    m.spaces.push(space(0xA0 + i, true, SpaceType::CONDITIONED, 1.0, 3.0));
+                }
+                for i in 0..3u128 {
+                    m.cons.materials.push(material(0xE0 + i, 0.5));
+                }
+                m.cons.wallcons.push(wallcons(0xC0, &[(0xE0, 0.3)]));
+                m.cons.wallcons.push(wallcons(0xC1, &[(0xE1, 0.2), (0xE0, 0.1)]));
+                m.cons.glasses.push(glass(0xF0));
+                m.cons.glasses.push(glass(0xF2));
+                m.cons.frames.push(frame(0xF1));
+                m.cons.frames.push(frame(0xF3));
+                let g1 = c.of(&[0xF0u128, 0xF2]);
+                m.cons.wincons.push(wincons(0xD0, uid(0xF0), uid(0xF1)));
+                m.cons.wincons.push(wincons(0xD1, uid(g1), uid(0xF3)));
+                // walls
+                let w0s = c.of(&[0xA0u128, 0xA1]);
+                let w0n = c.of(&[None, Some(0xA1u128), Some(0xA2)]);
+                let w0c = c.of(&[0xC0u128, 0xC1]);
+                m.walls.push(wall(1, BoundaryType::GROUND, uid(0xA0), None, uid(0xC0), 180.0, 0.0, rect(4.0, 5.0), None));
+                m.walls.push(wall(2, if w0n.is_some() { BoundaryType::INTERIOR } else { BoundaryType::EXTERIOR }, uid(w0s), w0n.map(uid), uid(w0c), 90.0, 0.0, rect(4.0, 3.0), None));
+                let wx = c.of(&[0xD0u128, 0xD1]);
+                m.windows.push(window(0x11, uid(2), uid(wx), 1.0, 1.0, None, 0.0));
+                // bridges
+                let l0 = c.of(&[0.0f32, 2.0]);
+                m.thermal_bridges.push(bridge(0x21, ThermalBridgeKind::CORNER, l0, 0.1));
+                m.thermal_bridges.push(bridge(0x22, ThermalBridgeKind::ROOF, -1.0, 0.1));
+                m.thermal_bridges.push(bridge(0x23, ThermalBridgeKind::PILLAR, 1.0e-3, 0.1));
+                m.thermal_bridges.push(bridge(0x24, ThermalBridgeKind::PILLAR, -0.0, 0.1));
+                // loads, thermostats, schedules
+                let sl = c.of(&[None, Some(0xB0u128), Some(0xB1)]);
+                let st = c.of(&[None, Some(0xB8u128)]);
+                m.spaces[0].loads = sl.map(uid);
+                m.spaces[0].thermostat = st.map(uid);
+                // a space that no wall refers to holds references too: they must not keep anything alive
+                m.spaces[2].loads = Some(uid(0xB1));
+                let ps = c.of(&[None, Some(0x30u128), Some(0x31)]);
+                let es = c.of(&[None, Some(0x31u128), Some(0x32)]);
+                m.loads.push(SpaceLoads { id: uid(0xB0), name: "L0".into(), area_per_person: 10.0, people_schedule: ps.map(uid), people_sensible: 5.0, people_latent: 2.0, equipment: 4.0, equipment_schedule: es.map(uid), lighting: 3.0, lighting_schedule: None });
+                m.loads.push(SpaceLoads { id: uid(0xB1), name: "L1".into(), area_per_person: 10.0, people_schedule: Some(uid(0x32)), people_sensible: 5.0, people_latent: 2.0, equipment: 4.0, equipment_schedule: None, lighting: 3.0, lighting_schedule: Some(uid(0x32)) });
+                let ts = c.of(&[None, Some(0x31u128), Some(0x32)]);
+                m.thermostats.push(Thermostat { id: uid(0xB8), name: "T0".into(), temp_max: ts.map(uid), temp_min: None });
+                m.thermostats.push(Thermostat { id: uid(0xB9), name: "T1".into(), temp_max: Some(uid(0x30)), temp_min: Some(uid(0x30)) });
+                let y0w = c.of(&[0x40u128, 0x41]);
+                m.schedules.year.push(sched(0x30, &[(y0w, 365)]));
+                m.schedules.year.push(sched(0x31, &[(0x41, 100), (0x42, 265)]));
+                m.schedules.year.push(sched(0x32, &[(0x42, 365)]));
+                let k1d = c.of(&[0x50u128, 0x51]);
+                m.schedules.week.push(schedw(0x40, &[(0x50, 7)]));
+                m.schedules.week.push(schedw(0x41, &[(k1d, 5), (0x51, 2)]));
+                m.schedules.week.push(schedw(0x42, &[(0x52, 7)]));
+                m.schedules.day.push(schedd(0x50, 1.0));
+                m.schedules.day.push(schedd(0x51, 0.5));
+                m.schedules.day.push(schedd(0x52, 0.0));
+                c.note(format!("g1={:x} w={:x}/{:?}/{:x} win={:x} l0={} loads={:?} therm={:?} ps={:?} es={:?} ts={:?} y0w={:x} k1d={:x}", g1, w0s, w0n, w0c, wx, l0, sl, st, ps, es, ts, y0w, k1d));
+
+                let want = purge_oracle(&m);
+                let ind0 = m.energy_indicators();
+                let warn0 = check(&m).len();
+                let mut p = m.clone();
+                let _ = purge_unused(&mut p);
+                let cmp = |name: &str, got: Vec<Uuid>, want: &Vec<Uuid>, c: &mut Ctx| {
+                    c.check(name, &got == want, || format!("{}: kept {:?} want {:?}", name, got.iter().map(|u| u.as_u128()).collect::<Vec<_>>(), want.iter().map(|u| u.as_u128()).collect::<Vec<_>>()));
+                };
+                cmp("C16.spaces", ids(&p.spaces, |x| x.id), &want.spaces, c);
+                cmp("C16.bridges", ids(&p.thermal_bridges, |x| x.id), &want.tbs, c);
+                cmp("C16.wallcons", ids(&p.cons.wallcons, |x| x.id), &want.wallcons, c);
+                cmp("C16.wincons", ids(&p.cons.wincons, |x| x.id), &want.wincons, c);
+                cmp("C16.materials", ids(&p.cons.materials, |x| x.id), &want.materials, c);
+                cmp("C16.glasses", ids(&p.cons.glasses, |x| x.id), &want.glasses, c);
+                cmp("C16.frames", ids(&p.cons.frames, |x| x.id), &want.frames, c);
+                cmp("C16.loads", ids(&p.loads, |x| x.id), &want.loads, c);
+                cmp("C16.thermostats", ids(&p.thermostats, |x| x.id), &want.thermostats, c);
+                cmp("C16.sched.year", ids(&p.schedules.year, |x| x.id), &want.year, c);
+                cmp("C16.sched.week", ids(&p.schedules.week, |x| x.id), &want.week, c);
+                cmp("C16.sched.day", ids(&p.schedules.day, |x| x.id), &want.day, c);
+                // frame: nothing else changes
+                c.check("C16.frame", serde_json::to_string(&p.walls).unwrap() == serde_json::to_string(&m.walls).unwrap() && serde_json::to_string(&p.windows).unwrap() == serde_json::to_string(&m.windows).unwrap() && serde_json::to_string(&p.meta).unwrap() == serde_json::to_string(&m.meta).unwrap() && serde_json::to_string(&p.shades).unwrap() == serde_json::to_string(&m.shades).unwrap(), || "walls / windows / shades / meta changed".to_string());
+                // kept items are unchanged
+                let kept_same = p.spaces.iter().all(|x| serde_json::to_string(x).unwrap() == serde_json::to_string(m.spaces.iter().find(|y| y.id == x.id).unwrap()).unwrap())
+                    && p.schedules.year.iter().all(|x| serde_json::to_string(x).unwrap() == serde_json::to_string(m.schedules.year.iter().find(|y| y.id == x.id).unwrap()).unwrap())
+                    && p.cons.wallcons.iter().all(|x| serde_json::to_string(x).unwrap() == serde_json::to_string(m.cons.wallcons.iter().find(|y| y.id == x.id).unwrap()).unwrap());
+                c.check("C16.kept_unchanged", kept_same, || "a kept item was modified".to_string());
+                // idempotent
+                let mut p2 = p.clone();
+                let _ = purge_unused(&mut p2);
+                c.check("C16.idempotent", p2.as_json().unwrap() == p.as_json().unwrap(), || "purging twice differs from purging once".to_string());
+                // no new broken link
+                let warn1 = check(&p).len();
+                c.check("C16.no_new_broken_link", warn1 <= warn0, || format!("{} warnings before, {} after", warn0, warn1));
+                // indicators unchanged
+                let ind1 = p.energy_indicators();
+                c.check("C16.indicators", nan_eq(ind0.area_ref, ind1.area_ref) && nan_eq(ind0.vol_env_net, ind1.vol_env_net) && nan_eq(ind0.vol_env_gross, ind1.vol_env_gross) && nan_eq(ind0.K_data.K, ind1.K_data.K) && nan_eq(ind0.n50_data.n50, ind1.n50_data.n50) && nan_eq(ind0.q_soljul_data.q_soljul, ind1.q_soljul_data.q_soljul) && nan_eq(ind0.q_soljul_data.Q_soljul, ind1.q_soljul_data.Q_soljul), || {
+                    format!("a_ref {} -> {}, K {} -> {}, n50 {} -> {}, q {} -> {}", ind0.area_ref, ind1.area_ref, ind0.K_data.K, ind1.K_data.K, ind0.n50_data.n50, ind1.n50_data.n50, ind0.q_soljul_data.q_soljul, ind1.q_soljul_data.q_soljul)
+                });
+                let removed = m.spaces.len() - p.spaces.len() + m.schedules.day.len() - p.schedules.day.len() + m.loads.len() - p.loads.len();
+                c.nontrivial(format!("{:?}{:?}{:?}{:?}{:?}{:?}", want.spaces.len(), want.year, want.week, want.day, want.materials, want.glasses));
+                c.sample(|| format!("loads={:?} therm={:?} ps={:?} es={:?} ts={:?} -> removed {} items; years kept {:?}", sl, st, ps, es, ts, removed, want.year.iter().map(|u| u.as_u128()).collect::<Vec<_>>()));
+            },
+        );
+    }
 }
